@@ -95,6 +95,16 @@ Proof.
   now destruct (plans_empty_command cl).
 Qed.
 
+(** With the proposed repair (notes/C05-fix-1.patch) the full statement holds, and the
+    repair changes nothing where no command was wordless. *)
+Theorem C05_fixed_full : forall toks cl,
+  plan_tokens_fixed toks = inl cl -> lookups_fine (first_word_lookups false cl).
+Proof. exact plan_fixed_full. Qed.
+
+Theorem C05_fix_conservative : forall toks cl,
+  plan_tokens toks = inl cl -> plans_empty_command cl = false -> plan_tokens_fixed toks = inl cl.
+Proof. exact plan_fixed_conservative. Qed.
+
 Theorem C05_first_word_exact : forall cl,
   lookups_fine (first_word_lookups false cl) <-> plans_empty_command cl = false.
 Proof. exact first_word_exact. Qed.
@@ -135,6 +145,8 @@ Print Assumptions C05_plan_total.
 Print Assumptions C05_tokenizer_lookups.
 Print Assumptions C05_empty_command_refuted.
 Print Assumptions C05_planner_partial.
+Print Assumptions C05_fixed_full.
+Print Assumptions C05_fix_conservative.
 Print Assumptions C05_first_word_exact.
 Print Assumptions C05_shell_panic_iff.
 Print Assumptions C05_head_word.
